@@ -57,9 +57,22 @@ fn differs_only_by_location(msg: &str, root: &str, path: &str) -> bool {
     art.len() >= 3 && art.len() <= 20 && art.starts_with(' ') && art.ends_with(' ') && art.chars().all(|c| c == ' ' || c.is_ascii_lowercase())
 }
 
+/// received word and accepted list of the UnknownKey / UnknownValue choices: lists of 0, 1, 2, 3 and 5 alternatives
+fn unknown_choice(variant: u8) -> (&'static str, &'static [&'static str]) {
+    const ACC: [&str; 3] = ["color", "size", "weight"];
+    const ACC2: [&str; 3] = ["Color", "filter", "maxHits"];
+    match variant { 0 => ("colour", &ACC), 1 => ("zzzzzz", &ACC), 2 => ("Colour", &ACC2), 3 => ("FILTER", &ACC2), 4 => ("maxHist", &ACC2), 5 => ("cOLOR", &ACC2),
+                    6 => ("colour", &[]), 7 => ("colour", &["color"]), 8 => ("zzzzzz", &["color", "size"]), _ => ("weigth", &["a", "b", "c", "d", "weight"]) }
+}
+/// the alternatives a message lists after "expected one of": the back-quoted pieces, in order
+fn listed_alternatives(msg: &str) -> Option<Vec<String>> {
+    let tail = &msg[msg.rfind("expected one of")? + "expected one of".len()..];
+    let parts: Vec<&str> = tail.split('`').collect();
+    if parts.len() % 2 == 0 { return None; }
+    Some(parts.iter().enumerate().filter(|(i, _)| i % 2 == 1).map(|(_, p)| p.to_string()).collect())
+}
 fn kind_of_choice<'a>(k: u8, variant: u8, seq3: &'a [J; 3]) -> (ErrorKind<'a, J>, Vec<String>, Vec<String>) {
     // returns the report, the pieces the message must contain, the pieces it must not contain
-    const ACC: [&str; 3] = ["color", "size", "weight"];
     const KINDS: [ValueKind; 2] = [ValueKind::Integer, ValueKind::Map];
     match k {
         0 => {
@@ -73,8 +86,7 @@ fn kind_of_choice<'a>(k: u8, variant: u8, seq3: &'a [J; 3]) -> (ErrorKind<'a, J>
         2 | 3 => {
             // received words: close / far from every alternative, all-lowercase and mixed case (a suggestion must be exactly what
             // `did_you_mean` computes for the received text as written -- C18 decides that function)
-            const ACC2: [&str; 3] = ["Color", "filter", "maxHits"];
-            let (word, acc): (&'static str, &'static [&'static str]) = match variant { 0 => ("colour", &ACC), 1 => ("zzzzzz", &ACC), 2 => ("Colour", &ACC2), 3 => ("FILTER", &ACC2), 4 => ("maxHist", &ACC2), _ => ("cOLOR", &ACC2) };
+            let (word, acc) = unknown_choice(variant);
             let mut must: Vec<String> = vec![format!("`{word}`")];
             for a in acc { must.push(format!("`{a}`")); }
             let mut not = vec![];
@@ -95,7 +107,7 @@ pub fn msg_paths() {
     let mut steps = Vec::new();
     for _ in 0..depth { steps.push(POOL[nd::below(9) as usize].clone()); }
     let k = nd::below(6);
-    let variant = if k == 0 { nd::below(12) } else if k == 2 || k == 3 { nd::below(6) } else { 0 };
+    let variant = if k == 0 { nd::below(12) } else if k == 2 || k == 3 { nd::below(10) } else { 0 };
     let seq3 = [json!(1), json!("w"), J::Null];
     let (rj, rq) = (ref_json(&steps), ref_qp(&steps));
     let root_json = msg_of(JsonError::error::<J>(None, kind_of_choice(k, variant, &seq3).0, ValuePointerRef::Origin)).0;
@@ -117,6 +129,10 @@ pub fn msg_paths() {
             oblige!(differs_only_by_location(&mq, &root_qp, &rq), "C14:query_param_message_contains_the_rendered_path");
         }
         oblige!(must.iter().all(|p| mj.contains(p.as_str())) && not.iter().all(|p| !mj.contains(p.as_str())), "C14:json_message_quotes_the_pieces_of_its_kind");
+        if k == 2 || k == 3 {
+            let want: Vec<String> = unknown_choice(variant).1.iter().map(|a| a.to_string()).collect();
+            oblige!(listed_alternatives(&mj).as_ref() == Some(&want) && listed_alternatives(&mq).as_ref() == Some(&want), "C14:message_lists_exactly_the_accepted_alternatives");
+        }
         // query parameters describe the value in their own words for IncorrectValueKind (kind 0): only kinds 1.. are compared
         if k != 0 {
             oblige!(must_q.iter().all(|p| mq.contains(p.as_str())) && not_q.iter().all(|p| !mq.contains(p.as_str())), "C14:query_param_message_quotes_the_pieces_of_its_kind");
